@@ -4,9 +4,10 @@
 //        [0] (rejected) | [-2] (panic) | [1 [[product tag cluster err] per probe]] ; the observation is the sorted list
 //        of DISTINCT summaries.  probes = [[host vip? path] ...]
 //   [2 K [[sub weight] ...]] : bal_gslb.Init on a Go map, K times; summary [0] | [1 [[name weight]...] total single avail]
-//   [3 K [sticky strategy] A B [[key murmur64] ...]] : reload-history independence of the balancer.
-//        A, B = [[sub weight [[bname addr port bweight] ...]] ...] (gslb weights + cluster_table backends).
-//        fresh = Init(B)+BackendInit ; hist = Init(A)+BackendInit+Reload(B)+BackendReload, both with SetGslbBasic(sticky,
+//   [3 K [sticky strategy] [A M ...] B [[key murmur64] ...]] : reload-history independence of the balancer.
+//        A, M.., B = [[sub weight [[bname addr port bweight] ...]] ...] (gslb weights + cluster_table backends).
+//        fresh = Init(B)+BackendInit ; hist = Init(A)+BackendInit, balance every key, then for M.. and B: Reload+BackendReload
+//        (+ balance every key after each M), both with SetGslbBasic(sticky,
 //        strategy 1 = client ip, 3 = request uri).  summary [-1 c] (A or B not loadable) | [halfF halfH], half =
 //        [state inventory picks]: state = [[name weight]...] total single (avail if single else -1); inventory = per
 //        sub-cluster the (AddrInfo, weight) list sorted by AddrInfo; picks = per key [sub-cluster backendName AddrInfo]
@@ -160,7 +161,11 @@ func impl(in hv.Val) hv.Val {
 			}
 			return conf, tbl
 		}
-		confA, tblA := mk(l[3])
+		histV := hv.AsList(l[3])
+		if len(histV) == 0 {
+			return hv.Err(1)
+		}
+		confA, tblA := mk(histV[0])
 		confB, tblB := mk(l[4])
 		var keys [][]byte
 		for _, p := range hv.AsList(l[5]) {
@@ -219,6 +224,15 @@ func impl(in hv.Val) hv.Val {
 				return hv.Err(1)
 			}
 			hist.BackendInit(tblA)
+			view(hist) // act -> reload -> act: the balancer has been used (lists sorted, round-robin state advanced)
+			for _, m := range histV[1:] {
+				confM, tblM := mk(m)
+				if err := hist.Reload(confM); err != nil {
+					return hv.Err(2)
+				}
+				hist.BackendReload(tblM)
+				view(hist)
+			}
 			if err := hist.Reload(confB); err != nil {
 				return hv.Err(2)
 			}
@@ -383,6 +397,25 @@ func genReload(r *hv.Rng) (string, hv.Val) {
 		return out
 	}
 	va := val(a, false)
+	histL := hv.L{va}
+	if r.Chance(1, 3) { // a longer history: A, then an intermediate configuration, then B
+		var m []sw
+		for _, e := range a {
+			if r.Chance(2, 3) {
+				m = append(m, sw{e.n, weight()})
+			}
+		}
+		for k := r.Range(0, 2); k > 0 && next < len(pool); k-- {
+			m = append(m, sw{pool[next], weight()})
+			next++
+		}
+		if len(m) == 0 {
+			m = append(m, a[0])
+		}
+		m[0].w = r.Range(1, 20)
+		histL = append(histL, val(m, true))
+		class += "-chain"
+	}
 	vb := val(b, true)
 	probes := hv.L{}
 	for k := 0; k < 12; k++ {
@@ -398,7 +431,7 @@ func genReload(r *hv.Rng) (string, hv.Val) {
 		strategy = 3
 		class += "-uri"
 	}
-	return class, hv.L{hv.I(3), hv.I(12), hv.L{hv.I(sticky), hv.I(strategy)}, va, vb, probes}
+	return class, hv.L{hv.I(3), hv.I(8), hv.L{hv.I(sticky), hv.I(strategy)}, histL, vb, probes}
 }
 
 var probePaths = []string{"/a", "/a/b", "/a/", "/ab", "/b", "/b/x", "/", "", "/c/d/e", "/e", "/z"}
@@ -537,5 +570,5 @@ func gen(r *hv.Rng, i int, tier string) (string, hv.Val) {
 func main() {
 	confload.Init()
 	defer confload.Cleanup()
-	hv.Main(&hv.Spec{Prop: "C14", Gen: gen, Impl: impl, NQuick: 1800, NThorough: 60000})
+	hv.Main(&hv.Spec{Prop: "C14", Gen: gen, Impl: impl, NQuick: 1500, NThorough: 60000})
 }
